@@ -264,7 +264,7 @@ def run(ctx):
     else:
         mcs += [("2x2 buf1 faults2 fup", mc_cfg(2, 2, 1, 2, [12]), 3, True),
                 ("2x2 buf1 faults0 ENABLED", mc_cfg(2, 2, 1, 0, [12], invariants=["EmitNeverWaitsENABLED"]), 1, False),
-                ("2x2 buf2 faults1 boom maxepoch2", mc_cfg(2, 2, 2, 1, [22], boom=[11], maxepoch=2), 2, True),
+                ("2x2 buf2 faults1 boom maxepoch1", mc_cfg(2, 2, 2, 1, [22], boom=[11], maxepoch=1), 2, True),
                 ("2x3 buf1 faults1 fup", mc_cfg(2, 3, 1, 1, [12, 23]), 3, True),
                 ("2x3 buf2 faults1 fup", mc_cfg(2, 3, 2, 1, [13]), 3, True),
                 ("3x2 buf1 faults1 fup", mc_cfg(3, 2, 1, 1, [12]), 5, True),
